@@ -54,15 +54,16 @@ static std::string h_opt(const std::string& arg)
 	build_song(song2, split_ws(arg));
 	std::string result = "ok";
 	int passes = 0;
+	Optimizer o(song2, 0);
+	o.min_score = min_score;
+	o.pass = 0;
 	try
 	{
-		Optimizer o(song2, 0);
-		o.min_score = min_score;
 		o.optimize();
-		passes = o.pass;
 	}
 	catch(InputError& e) { result = "threw:" + msg_token(e.what()); }
 	catch(std::exception& e) { result = std::string("exc:") + exc_name(e); }
+	passes = o.pass;
 	std::string dump = song_dump(song2);
 	std::string after = validate_all(song2);
 	char buf[32];
